@@ -9,6 +9,7 @@ from ..cfg import always_raises
 from ..const import CallVal, EnumVal, module_const
 from ..core import AnalysisError, calls_in, call_name, const_str, dotted, unparse, walk_no_nested
 from ..isa import load_isa
+from ..match import const_int as const_int_
 from ..match import (Field, last_assignments, eq_const_test, field_of, if_chain, inline, kwarg, pack_call, returns_of,
                      single_assignments)
 from ..report import VERIF, Ctx
@@ -276,50 +277,34 @@ def r4_width_selection(ctx: Ctx) -> None:
             found = True
     if not found:
         raise AnalysisError("guess_value_size: `if size:` selection not recognised")
-    gos = ctx.repo.func(NODES, "ValueNodeProtocol.get_operand_size")
-    env = single_assignments(gos.node)
-    chain = [st for st in gos.node.body if isinstance(st, ast.If)]
-    if len(chain) != 1:
-        raise AnalysisError("get_operand_size: expected one if-chain")
-    arms, orelse = if_chain(chain[0])
-
-    def arm_value(body: list[ast.stmt]) -> str:
-        if len(body) == 1 and isinstance(body[0], ast.Assign) and isinstance(body[0].value, ast.Constant):
-            return str(body[0].value.value)
-        if len(body) == 1 and isinstance(body[0], ast.Return) and isinstance(body[0].value, ast.Constant):
-            return str(body[0].value.value)
-        raise AnalysisError(f"get_operand_size: arm body not a constant: {unparse(body[0])[:60]}")
-
-    var = None
-    tests = []
-    for test, body in arms:
-        if not (isinstance(test, ast.Compare) and len(test.ops) == 1 and isinstance(test.comparators[0], ast.Constant)
-                and isinstance(test.comparators[0].value, int) and isinstance(test.left, ast.Name)):
-            raise AnalysisError(f"get_operand_size: test not `<name> <cmp> <int>`: {unparse(test)}")
-        var = var or test.left.id
-        if test.left.id != var:
-            raise AnalysisError("get_operand_size: chain tests different variables")
-        tests.append((type(test.ops[0]), test.comparators[0].value, arm_value(body)))
-    if not orelse:
-        raise AnalysisError("get_operand_size: no else arm")
-    default = arm_value(orelse)
-    src = unparse(inline(ast.Name(var, ast.Load()), env))
-    ctx.check(src == "self.get_value_string_len()", "get_operand_size:measure",
-              f"width is chosen from get_value_string_len(); found {src}")
-    import operator as op
-    cmpf = {ast.LtE: op.le, ast.Lt: op.lt, ast.GtE: op.ge, ast.Gt: op.gt, ast.Eq: op.eq, ast.NotEq: op.ne}
-    # the chain only compares the digit count with integer constants: evaluate the finite abstraction
-    for digits in range(1, 13):
-        got = default
-        for cls, c, val in tests:
-            if cls not in cmpf:
-                raise AnalysisError("get_operand_size: comparison operator not modelled")
-            if cmpf[cls](digits, c):
-                got = val
-                break
-        want = "b" if digits <= 2 else "w" if digits <= 4 else "l"
-        ctx.count("digit_classes")
-        ctx.check(got == want, f"get_operand_size[{digits} hex digits]", f"selects {got!r}, the smallest holding width is {want!r}")
+    # every class a value node can be: its effective get_operand_size is evaluated over the finite set of boundary
+    # magnitudes (the code only ever compares the measure with integer constants)
+    proto = ctx.repo.cls(NODES, "ValueNodeProtocol")
+    classes = ctx.repo.subclasses(proto)
+    ctx.count("value_node_classes", len(classes))
+    for ci in classes:
+        has_value = ci.name == "ExpressionNode" or "eval_expression" in unparse(ctx.repo.lookup_method(ci, "get_value").node)  # type: ignore[union-attr]
+        if has_value:
+            consts = set()
+            for c in ctx.repo.mro(ci):
+                m = c.methods.get("get_operand_size")
+                if m is not None:
+                    consts |= {x for x in (const_int_(n) for n in ast.walk(m.node)) if x is not None and x > 8}
+            pts = {0, 1, 0xFF, 0x100, 0xFFFF, 0x10000, 0xFFFFFF, 0x1000000}
+            for c in consts:
+                pts |= {c - 1, c, c + 1}
+            for v in sorted(pts):
+                got = _eval_size(ctx, ci, 0, {"value": v, "digits": len(hex(v)) - 2})
+                want = "b" if v <= 0xFF else "w" if v <= 0xFFFF else "l"
+                ctx.count("digit_classes")
+                ctx.check(got == want, f"{ci.name}.get_operand_size[value {hex(v)}]", f"selects {got!r}, the smallest width holding {hex(v)} is {want!r}")
+        else:
+            for digits in range(1, 13):
+                got = _eval_size(ctx, ci, 0, {"digits": digits})
+                want = "b" if digits <= 2 else "w" if digits <= 4 else "l"
+                ctx.count("digit_classes")
+                ctx.check(got == want, f"{ci.name}.get_operand_size[{digits} hex digits]", f"selects {got!r}, the smallest holding width is {want!r}")
+    ctx.floor("value_node_classes", 2)
     sl = ctx.repo.func(NODES, "ExpressionNode.get_value_string_len")
     rets = returns_of(sl.node)
     ok = len(rets) == 1 and unparse(inline(rets[0].value, single_assignments(sl.node))) in (  # type: ignore[arg-type]
@@ -331,6 +316,82 @@ def r4_width_selection(ctx: Ctx) -> None:
         cs = calls_in(fn.node, "guess_value_size")
         ok = len(cs) >= 1 and all([unparse(a) for a in c.args] == [fn.params()[1], fn.params()[3 if q.endswith("emit") else 2]] for c in cs)
         ctx.check(ok, f"{q}:width-source", "width comes from guess_value_size(value_node, size)")
+
+
+def _eval_size(ctx: Ctx, ci, skip: int, world: dict) -> str:
+    """Abstractly run the class's effective get_operand_size for one representative magnitude.
+    world: 'value' (if the node has a numeric value) and 'digits' (its hex digit count)."""
+    import operator as op
+    impls = [c.methods["get_operand_size"] for c in ctx.repo.mro(ci) if "get_operand_size" in c.methods]
+    if skip >= len(impls):
+        raise AnalysisError(f"{ci.name}: no get_operand_size implementation")
+    fn = impls[skip]
+    cmpf = {ast.LtE: op.le, ast.Lt: op.lt, ast.GtE: op.ge, ast.Gt: op.gt, ast.Eq: op.eq, ast.NotEq: op.ne}
+
+    class Ret(Exception):
+        def __init__(self, v):
+            self.v = v
+
+    def ev(n: ast.AST, env: dict):
+        c = const_int_(n)
+        if c is not None:
+            return c
+        if isinstance(n, ast.Constant):
+            return n.value
+        if isinstance(n, ast.Name):
+            if n.id in env:
+                return env[n.id]
+            raise AnalysisError(f"{fn.where}: name {n.id} not modelled")
+        if isinstance(n, ast.Call):
+            cn = call_name(n)
+            if cn == "self.get_value_string_len":
+                return world["digits"]
+            if cn == "self.get_value":
+                if "value" not in world:
+                    raise AnalysisError(f"{fn.where}: uses get_value() on a node class without a numeric model")
+                return world["value"]
+            if cn == "super().get_operand_size":
+                return _eval_size(ctx, ci, skip + 1, world)
+            if cn in ("len",) and isinstance(n.args[0], ast.Call) and call_name(n.args[0]) == "hex":
+                return len(hex(ev(n.args[0].args[0], env)))
+            raise AnalysisError(f"{fn.where}: call {cn} not modelled")
+        if isinstance(n, ast.BinOp) and isinstance(n.op, (ast.Sub, ast.Add)):
+            a, b = ev(n.left, env), ev(n.right, env)
+            return a - b if isinstance(n.op, ast.Sub) else a + b
+        if isinstance(n, ast.Compare) and len(n.ops) == 1 and type(n.ops[0]) in cmpf:
+            return cmpf[type(n.ops[0])](ev(n.left, env), ev(n.comparators[0], env))
+        if isinstance(n, ast.BoolOp):
+            vals = [ev(v, env) for v in n.values]
+            return all(vals) if isinstance(n.op, ast.And) else any(vals)
+        if isinstance(n, ast.UnaryOp) and isinstance(n.op, ast.Not):
+            return not ev(n.operand, env)
+        if isinstance(n, ast.IfExp):
+            return ev(n.body, env) if ev(n.test, env) else ev(n.orelse, env)
+        raise AnalysisError(f"{fn.where}: expression `{unparse(n)[:50]}` not modelled")
+
+    def run(body: list[ast.stmt], env: dict) -> None:
+        for st in body:
+            if isinstance(st, ast.Expr) and isinstance(st.value, ast.Constant):
+                continue
+            if isinstance(st, ast.AnnAssign) and st.value is None:
+                continue
+            if isinstance(st, (ast.Assign, ast.AnnAssign)):
+                tgt = st.targets[0] if isinstance(st, ast.Assign) else st.target
+                if not isinstance(tgt, ast.Name):
+                    raise AnalysisError(f"{fn.where}: assignment target not modelled")
+                env[tgt.id] = ev(st.value, env)  # type: ignore[arg-type]
+            elif isinstance(st, ast.If):
+                run(st.body if ev(st.test, env) else st.orelse, env)
+            elif isinstance(st, ast.Return):
+                raise Ret(ev(st.value, env) if st.value is not None else None)
+            else:
+                raise AnalysisError(f"{fn.where}: statement {type(st).__name__} not modelled")
+
+    try:
+        run(fn.node.body, {})
+    except Ret as r:
+        return str(r.v)
+    raise AnalysisError(f"{fn.where}: falls off the end")
 
 
 REF_INDEX_MAP = {
